@@ -168,6 +168,8 @@ impl FeoxStore {
                     return Err(FeoxError::OlderTimestamp);
                 }
                 crate::test_hooks::pause_at(crate::test_hooks::AFTER_UPSERT_READ);
+                #[cfg(feoxdb_verif)]
+                crate::verif::sched("ins_read");
 
                 match self.update_record_with_ttl(
                     &existing_record,
@@ -181,6 +183,8 @@ impl FeoxStore {
                 }
             }
 
+            #[cfg(feoxdb_verif)]
+            crate::verif::sched("ins_create");
             let reservation = self.reserve_memory(record_size)?;
 
             let record = if ttl_expiry > 0 && self.enable_ttl {
@@ -219,6 +223,8 @@ impl FeoxStore {
             self.stats
                 .record_insert(start.elapsed().as_nanos() as u64, false);
 
+            #[cfg(feoxdb_verif)]
+            crate::verif::sched("ins_enq");
             if let (Some(wb), Some(record)) = (&self.write_buffer, buffered_record) {
                 wb.add_write(Operation::Insert, record, 0)?;
             }
@@ -283,6 +289,8 @@ impl FeoxStore {
                 if timestamp <= existing_record.timestamp {
                     return Err(FeoxError::OlderTimestamp);
                 }
+                #[cfg(feoxdb_verif)]
+                crate::verif::sched("ins_read");
 
                 match self.update_record_with_ttl_bytes(
                     &existing_record,
@@ -296,6 +304,8 @@ impl FeoxStore {
                 }
             }
 
+            #[cfg(feoxdb_verif)]
+            crate::verif::sched("ins_create");
             let reservation = self.reserve_memory(new_size)?;
 
             let record = if ttl_expiry > 0 {
@@ -338,6 +348,8 @@ impl FeoxStore {
             self.stats
                 .record_insert(start.elapsed().as_nanos() as u64, false);
 
+            #[cfg(feoxdb_verif)]
+            crate::verif::sched("ins_enq");
             if let (Some(wb), Some(record)) = (&self.write_buffer, buffered_record) {
                 wb.add_write(Operation::Insert, record, 0)?;
             }
@@ -390,8 +402,12 @@ impl FeoxStore {
             .hash_table
             .read(key, |_, v| v.clone())
             .ok_or(FeoxError::KeyNotFound)?;
+        #[cfg(feoxdb_verif)]
+        crate::verif::sched("get_read");
 
         let (value, cache_hit, source) = self.resolve_value(key, record)?;
+        #[cfg(feoxdb_verif)]
+        crate::verif::sched("get_resolved");
 
         if !cache_hit {
             if let Some(ref cache) = self.cache {
@@ -446,8 +462,12 @@ impl FeoxStore {
             .hash_table
             .read(key, |_, v| v.clone())
             .ok_or(FeoxError::KeyNotFound)?;
+        #[cfg(feoxdb_verif)]
+        crate::verif::sched("get_read");
 
         let (value, cache_hit, source) = self.resolve_value(key, record)?;
+        #[cfg(feoxdb_verif)]
+        crate::verif::sched("get_resolved");
 
         if !cache_hit {
             if let Some(ref cache) = self.cache {
@@ -513,6 +533,8 @@ impl FeoxStore {
         let start = std::time::Instant::now();
         self.validate_key(key)?;
         let (timestamp, explicit_timestamp) = self.resolve_timestamp(key, timestamp);
+        #[cfg(feoxdb_verif)]
+        crate::verif::sched("del_guard");
 
         let (record, old_value_len) = match self.hash_table.entry(key.to_vec()) {
             scc::hash_map::Entry::Occupied(entry) => {
@@ -539,7 +561,11 @@ impl FeoxStore {
             scc::hash_map::Entry::Vacant(_) => return Err(FeoxError::KeyNotFound),
         };
 
+        #[cfg(feoxdb_verif)]
+        crate::verif::sched("del_post");
         self.remove_cached(key, &record);
+        #[cfg(feoxdb_verif)]
+        crate::verif::sched("del_enq");
 
         // Queue deletion for persistence if write buffer exists and not memory-only
         if !self.memory_only {
@@ -680,6 +706,8 @@ impl FeoxStore {
             match self.resolve_record_value(key, &record)? {
                 Some((value, cache_hit)) => return Ok((value, cache_hit, record)),
                 None => {
+                    #[cfg(feoxdb_verif)]
+                    crate::verif::sched("resolve_retry");
                     record = self
                         .hash_table
                         .read(key, |_, v| v.clone())
@@ -725,6 +753,8 @@ impl FeoxStore {
         if let Some(value) = record.get_value() {
             return Ok(Some((value, true)));
         }
+        #[cfg(feoxdb_verif)]
+        crate::verif::sched("resolve_cache");
         if let Some(value) = self
             .cache
             .as_ref()
